@@ -316,7 +316,41 @@ func (i *yamlInputIter) Next() (any, bool) {
 		i.err = &yamlParseError{i.fname, i.ir.getContents(nil, nil), err}
 		return i.err, true
 	}
-	return v, true
+	return normalizeYAMLNumbers(v), true
+}
+
+// normalizeYAMLNumbers converts the numbers which are valid in YAML but
+// not in JSON (+1, .5, 1., 00.5) so that they are printed as valid JSON.
+func normalizeYAMLNumbers(v any) any {
+	switch v := v.(type) {
+	case map[string]any:
+		for k, x := range v {
+			v[k] = normalizeYAMLNumbers(x)
+		}
+	case []any:
+		for i, x := range v {
+			v[i] = normalizeYAMLNumbers(x)
+		}
+	case json.Number:
+		s, sign := strings.TrimPrefix(string(v), "+"), ""
+		if strings.HasPrefix(s, "-") {
+			s, sign = s[1:], "-"
+		}
+		i := strings.IndexAny(s, ".eE")
+		if i < 0 {
+			i = len(s)
+		}
+		integer, rest := strings.TrimLeft(s[:i], "0"), s[i:]
+		if integer == "" {
+			integer = "0"
+		}
+		if strings.HasPrefix(rest, ".") &&
+			(len(rest) == 1 || rest[1] == 'e' || rest[1] == 'E') {
+			rest = ".0" + rest[1:]
+		}
+		return json.Number(sign + integer + rest)
+	}
+	return v
 }
 
 func (i *yamlInputIter) Close() error {
